@@ -159,6 +159,61 @@ def account_writers(P, R):
     return writers
 
 
+def account_nonempty(P, R, writers, rule='C05.GRD.7'):
+    """An account stamp, once given, is never wiped by a later reply: the setter copies the text up to its first
+    terminator (the characters its copy loop stops at), so every call hands it a text whose FIRST character is known
+    not to be one of those.  ("OK " followed by nothing, or by a second blank, is an OK without an account.)  Otherwise
+    a second login service's empty answer erases the stamp the first one gave - after the account-only (+!) hold was
+    already released - and the client is accepted bare."""
+    n = 0
+    for k in writers:
+        setter = P.fns[k]
+        if len(setter.params) < 2:
+            continue
+        src = setter.params[1]
+        terms = set()
+        for b in setter.blocks.values():
+            c = (b.get('term') or {}).get('cond')
+            for x in walk(c) if c is not None else ():
+                if isinstance(x, dict) and x.get('k') == 'bin' and x.get('op') in ('!=', '=='):
+                    for a, o in ((x.get('l'), x.get('r')), (x.get('r'), x.get('l'))):
+                        if isinstance(a, dict) and a.get('k') in ('idx', 'un') and root_var(a) is not None and is_var(root_var(a), src) and isinstance(const_of(o), int):
+                            terms.add(const_of(o))
+        if not terms:
+            raise AnalysisBroken('the account setter %s has no recognisable terminator test' % setter.name)
+        for s in P.callers(setter, may=True):
+            f = s.fn
+            a = s.ev['args'][1] if len(s.ev['args']) > 1 else None
+            if a is None:
+                continue
+            # the first character of the argument: base[K] for `base + K`, base[0] for `base`
+            if a.get('k') == 'bin' and a.get('op') == '+' and is_var(a.get('l')) and isinstance(const_of(a.get('r')), int):
+                base, off = a['l']['name'], const_of(a['r'])
+            elif is_var(a):
+                base, off = a['name'], 0
+            else:
+                base, off = None, None
+
+            def first_char(e):
+                if not isinstance(e, dict):
+                    return False
+                if e.get('k') == 'idx' and is_var(e.get('base'), base) and const_of(e.get('index')) == off:
+                    return True
+                if e.get('k') == 'un' and e.get('op') == '*' and off == 0 and is_var(e.get('e'), base):
+                    return True
+                return False
+            gs = f.guards(s.bid)
+            missing = []
+            for c in sorted(terms):
+                known = any(first_char(g[0]) and ((g[1] == '!=' and const_of(g[2]) == c) or (g[1] == '==' and isinstance(const_of(g[2]), int) and const_of(g[2]) != c)) for g in gs)
+                if not known:
+                    missing.append(c)
+            n += 1
+            R.ob(rule, base is not None and not missing, s, 'the text handed to the account setter is known to start with a character the setter keeps (not %s)%s' % (
+                ', '.join(repr(chr(c)) for c in sorted(terms)), '' if not missing else ': nothing rules out %s' % ', '.join(repr(chr(c)) for c in missing)), key='setter-call:nonempty')
+    R.floor(rule, 1, 'calls of the account setter')
+
+
 def account_copy(P, R, writers):
     for k in writers:
         f = P.fns[k]
@@ -464,6 +519,7 @@ def run(P, R, tier):
     slices(P, R)
     w = account_writers(P, R)
     account_copy(P, R, w)
+    account_nonempty(P, R, w)
     accept_forms(P, R)
     plus_x(P, R, w)
     # the login-type test may be written by exclusion only if a service's protocol is always a valid enumerator
